@@ -2,6 +2,8 @@
 package kv
 
 import (
+	"errors"
+
 	dbm "github.com/lianxiangcloud/linkchain/libs/db"
 )
 
@@ -14,6 +16,24 @@ type CopyDB struct {
 }
 
 func NewCopyDB() *CopyDB { return &CopyDB{dbm.NewMemDB()} }
+
+// ErrNotFound mirrors goleveldb's error for a missing key.
+var ErrNotFound = errors.New("leveldb: not found")
+
+// Load behaves like the production backend (goleveldb): a missing key is an error, not (nil, nil) as in MemDB.
+// (The node's code relies on it, e.g. loadStartDeleteHeight; which error value is returned is backend-specific.)
+func (d *CopyDB) Load(key []byte) ([]byte, error) {
+	if !d.MemDB.Has(key) {
+		return nil, ErrNotFound
+	}
+	return d.MemDB.Get(key), nil
+}
+
+// Exist mirrors GoLevelDB.Exist (value != nil, error of Load).
+func (d *CopyDB) Exist(key []byte) (bool, error) {
+	v, err := d.Load(key)
+	return v != nil, err
+}
 
 func cp(b []byte) []byte {
 	if b == nil {
